@@ -14,6 +14,7 @@ import json
 import os
 import re
 import shutil
+import time
 import traceback
 
 from . import c16_fsaudit as A
@@ -23,6 +24,7 @@ DATA_OF = {"m1": "d1", "m2": "d1", "m3": "d2"}
 PARAM_OF = {"m1": "p1", "m2": "p2", "m3": "p1"}
 TEXT = {
     "na": "run_a", "nb": "run_b", "nc": "run_c", "fm1": "fu_m1", "fm2": "fu_m2", "fm3": "fu_m3",
+    "cm1": "cc_m1", "cm2": "cc_m2", "cm3": "cc_m3",
     "dA": "descr A", "dB": "descr B", "dC": "descr C", "dF": "descr F",
     "gA": "message A", "gB": "message, B", "gC": 'message "C"', "gF": "message F",
 }
@@ -245,46 +247,178 @@ def do_op(ctx, op, tok=False, fresh=0):
 # ----------------------------------------------------------------------------- child: run a workload, maybe die
 
 
+def label_events(events, opkind):
+    """map audited events of ONE operation to the step names of ModelDB.tla (conformance: drift only)"""
+    out = []
+    seen_pending = False
+    reader = opkind in ("Retrieve", "RetrieveName", "ResolveName")
+    for kind, rel, detail in events:
+        base = os.path.basename(rel)
+        parent = os.path.basename(os.path.dirname(rel))
+        lab = "?" + kind + ":" + base
+        if "/.modeldb/" not in rel + "/":
+            if base in ("", "ctx", "subcontexts", "models") and kind == "os.mkdir":
+                lab = "InitDirs"
+            elif parent == "models" and kind == "os.symlink":
+                lab = "Symlink"
+            elif base == "annotations":
+                if kind in ("os.utime",) or (kind == "open" and str(detail).startswith("fd:")):
+                    lab = "InitDirs"
+                elif kind == "open":
+                    lab = "AnnReadAll" if detail == "r" else "AnnTruncate"
+                elif kind == "close":
+                    lab = "AnnWrite"
+            elif base == "annotations.tmp":
+                lab = {"open": "AnnOpenTmp", "close": "AnnCloseTmp", "os.rename": "AnnRename"}.get(kind, lab)
+            elif base == "annotations.lock":
+                lab = "AnnLockEx" if detail == "fd:rw" else "AnnTouchLock"
+            elif base == "log.lock":
+                lab = "LogLockEx" if detail == "fd:rw" else "LogTouchLock"
+            elif base == "log.tmp":
+                lab = {"open": "OpenLogTmp", "close": "CloseLogTmp", "os.rename": "RenameLog"}.get(kind, lab)
+            elif base == "log.csv":
+                if kind == "open":
+                    lab = {"w": "OpenLogHeader", "a": "LogOpenAppend", "r": "ReadLog"}.get(detail, lab)
+                elif kind == "close":
+                    lab = "WriteLogHeader" if opkind == "Open" else "LogWrite"
+            elif base == "common_options":
+                lab = "InitCommon"
+        else:
+            if base == ".modeldb":
+                lab = "InitDirs"
+            elif base == ".lock":
+                if detail == "fd:rw":
+                    lab = "LockSh" if reader else "LockEx"
+                else:
+                    lab = "RTouchLock" if reader else "TouchLock"
+            elif base == "PENDING":
+                lab = "UnlinkPending" if kind == "os.remove" else "TouchPending"
+                seen_pending = True
+            elif "/.datasets" in rel:
+                if kind == "os.mkdir":
+                    lab = "MkHashDir"
+                elif kind in ("os.listdir", "os.scandir"):
+                    lab = "ScanDatasetNumbers" if base == ".datasets" else "ListHashDir"
+                elif "/.hash/" in rel:
+                    lab = "TouchIndex"
+                elif base.endswith(".csv"):
+                    lab = {"open": "OpenCsv" if detail == "w" else "ReadEntry", "close": "CloseCsv"}.get(kind, lab)
+                elif base.endswith(".datainfo"):
+                    if kind == "close":
+                        lab = "CloseDatainfo"
+                    elif detail == "w":
+                        lab = "OpenDatainfo"
+                    else:
+                        lab = "ReadDatainfo" if opkind == "Store" else "ReadEntry"
+            elif base.startswith("model."):
+                lab = {"open": "OpenModel" if detail == "w" else "ReadEntry", "close": "CloseModel"}.get(kind, lab)
+            elif base == "results.json":
+                lab = {"open": "OpenResults" if detail == "w" else "ReadEntry", "close": "CloseResults"}.get(kind, lab)
+            elif kind == "os.mkdir":
+                if not seen_pending:
+                    lab = "RMkKeyDirs" if reader else "MkKeyDirs"
+                else:
+                    lab = "MkMetaDir" if base == ".pharmpy" else "MkModelDir"
+        out.append(lab)
+    return out
+
+
 def _status(fd, rec):
+    rec["t"] = time.time()
     os.write(fd, (json.dumps(rec) + "\n").encode())
 
 
-def run_child(root, ops, crash_at, status_path):
-    """fork; the child runs Open + ops under the audit hook and dies at event `crash_at` (None: runs to the end).
-    Returns (exit code, status records: op begin/end with event counts; the recorded events when not crashing)."""
-    pid = os.fork()
-    if pid == 0:
-        rc = 3
+def _wait_file(path, needle=None, timeout=300.0):
+    """poll until `path` exists (and contains `needle`); returns False on time-out"""
+    t0 = time.time()
+    while time.time() - t0 < timeout:
         try:
-            fd = os.open(status_path, os.O_WRONLY | os.O_CREAT | os.O_TRUNC, 0o644)
-            A.install()
-            A.arm(root, crash_at=crash_at, record=crash_at is None)
-            _status(fd, {"i": 0, "ph": "b", "n": A.count()})
-            try:
-                ctx = open_ctx(root)
-                _status(fd, {"i": 0, "ph": "e", "n": A.count(), "ev": {"e": "Reopen", "out": "ok"}})
-            except BaseException as e:  # noqa: BLE001
-                _status(fd, {"i": 0, "ph": "e", "n": A.count(), "ev": {"e": "Reopen", "out": outcome_of(e), "detail": _detail(e)}})
-                ctx = None
-            if ctx is not None:
-                for i, op in enumerate(ops, start=1):
-                    _status(fd, {"i": i, "ph": "b", "n": A.count()})
-                    ev = do_op(ctx, op)
-                    _status(fd, {"i": i, "ph": "e", "n": A.count(), "ev": ev})
-            evs = A.disarm()
-            if evs is not None:
-                _status(fd, {"events": evs})
-            rc = 0
-        except BaseException:  # noqa: BLE001
-            traceback.print_exc()
-            rc = 3
-        finally:
-            os._exit(rc)
-    _, st = os.waitpid(pid, 0)
-    code = os.waitstatus_to_exitcode(st)
+            if needle is None:
+                if os.path.exists(path):
+                    return True
+            else:
+                with A._real_open(path) as f:
+                    if needle in f.read():
+                        return True
+        except OSError:
+            pass
+        time.sleep(0.01)
+    return False
+
+
+OPEN_DONE = '"i": 0, "ph": "e"'
+
+
+def spawn_child(root, ops, crash_at, status_path, pause=None, wait_for=None):
+    """fork; the child runs Open + ops under the audit hook and dies at event `crash_at` (None: runs to the end).
+    pause = {"label": step name, "paused": marker path, "go": flag path}: the child stops BEFORE its first audited event with
+            that design-layer label until the flag file exists (two-process schedules);
+    wait_for = status file of another child: Open starts only after that child's Open has returned."""
+    pid = os.fork()
+    if pid != 0:
+        return pid
+    rc = 3
+    try:
+        fd = os.open(status_path, os.O_WRONLY | os.O_CREAT | os.O_TRUNC, 0o644)
+        if wait_for is not None:
+            _wait_file(wait_for, OPEN_DONE)
+        A.install()
+        state = {"kind": "Open", "events": [], "done": False}
+
+        def on_event(kind, rel, detail):
+            if state["done"]:
+                return
+            state["events"].append([kind, rel, detail])
+            if label_events(state["events"], state["kind"])[-1] == pause["label"]:
+                state["done"] = True
+                os.close(os.open(pause["paused"], os.O_WRONLY | os.O_CREAT, 0o644))
+                _wait_file(pause["go"])
+
+        A.arm(root, crash_at=crash_at, record=crash_at is None, on_event=on_event if pause else None)
+        _status(fd, {"i": 0, "ph": "b", "n": A.count()})
+        try:
+            ctx = open_ctx(root)
+            _status(fd, {"i": 0, "ph": "e", "n": A.count(), "ev": {"e": "Reopen", "out": "ok"}})
+        except BaseException as e:  # noqa: BLE001
+            _status(fd, {"i": 0, "ph": "e", "n": A.count(), "ev": {"e": "Reopen", "out": outcome_of(e), "detail": _detail(e)}})
+            ctx = None
+        if ctx is not None:
+            for i, op in enumerate(ops, start=1):
+                state["kind"], state["events"] = op["e"], []
+                _status(fd, {"i": i, "ph": "b", "n": A.count()})
+                ev = do_op(ctx, op)
+                _status(fd, {"i": i, "ph": "e", "n": A.count(), "ev": ev})
+        evs = A.disarm()
+        if evs is not None:
+            _status(fd, {"events": evs})
+        rc = 0
+    except BaseException:  # noqa: BLE001
+        traceback.print_exc()
+        rc = 3
+    finally:
+        os._exit(rc)
+
+
+def reap_child(pid, status_path, timeout=None):
+    """wait for a child; with a time-out the child is killed when it does not end (exit code -9)"""
+    if timeout is None:
+        _, st = os.waitpid(pid, 0)
+        code = os.waitstatus_to_exitcode(st)
+    else:
+        t0, code = time.time(), None
+        while time.time() - t0 < timeout:
+            r, st = os.waitpid(pid, os.WNOHANG)
+            if r != 0:
+                code = os.waitstatus_to_exitcode(st)
+                break
+            time.sleep(0.02)
+        if code is None:
+            os.kill(pid, 9)
+            os.waitpid(pid, 0)
+            code = -9
     recs = []
     try:
-        with open(status_path) as f:
+        with A._real_open(status_path) as f:
             for line in f:
                 try:
                     recs.append(json.loads(line))
@@ -293,6 +427,25 @@ def run_child(root, ops, crash_at, status_path):
     except OSError:
         pass
     return code, recs
+
+
+def read_status(status_path):
+    recs = []
+    try:
+        with A._real_open(status_path) as f:
+            for line in f:
+                try:
+                    recs.append(json.loads(line))
+                except ValueError:
+                    pass
+    except OSError:
+        pass
+    return recs
+
+
+def run_child(root, ops, crash_at, status_path):
+    """Returns (exit code, status records: op begin/end with event counts; the recorded events when not crashing)."""
+    return reap_child(spawn_child(root, ops, crash_at, status_path), status_path)
 
 
 _TS = re.compile(rb"\d{4}-\d\d-\d\d \d\d:\d\d:\d\d\.\d+")
